@@ -571,7 +571,7 @@ class OneItem(Sub):
     rule = ('a one-item array {a} against every array of 2..3 items over a 5-value pool, + and * in both orders (host lists and '
             'literals): x+y and y+x, x*y and y*x give the same outcome (commutativity; whether a one-item array broadcasts or is a '
             'length mismatch is not fixed, but it cannot depend on the side); non-trivial = all')
-    min_cases = 20
+    min_cases = 10
     min_nontrivial = 100
     POOL = [2, 0.5, -3, 'abc', None]
 
